@@ -662,7 +662,13 @@ func unPrec(op string) int {
 // PrintOpts controls the printer. Full = parenthesise every compound operand.
 type PrintOpts struct {
 	Full bool
+	// Mark: the printer writes MarkByte immediately before the token at which
+	// the library locates this node (identifier, literal, operator, member
+	// name, opening bracket of index/slice/array/map, function name).
+	Mark *Term
 }
+
+const MarkByte = '\x01'
 
 func (t *Term) String() string { return Print(t, PrintOpts{}) }
 
@@ -755,6 +761,15 @@ func prc(sb *strings.Builder, t *Term, o PrintOpts, c pctx) {
 	}
 	inner := top // context inside brackets / arguments
 	post := pctx{level: 1000, noUnary: true, noCond: true, noNumber: true}
+	mark := func() {
+		if o.Mark == t {
+			sb.WriteByte(MarkByte)
+		}
+	}
+	switch t.K {
+	case KInt, KFloat, KStr, KBool, KNil, KIdent, KPointer, KUnary, KCall, KBuiltin, KArray, KMap:
+		mark()
+	}
 	switch t.K {
 	case KInt:
 		if t.Int < 0 {
@@ -818,12 +833,17 @@ func prc(sb *strings.Builder, t *Term, o PrintOpts, c pctx) {
 		}
 		prc(sb, t.Sub[0], o, lc)
 		sb.WriteByte(' ')
+		mark()
 		sb.WriteString(t.Op)
 		sb.WriteByte(' ')
 		prc(sb, t.Sub[1], o, rc)
 	case KField:
 		if t.Short && t.Sub[0].K == KPointer && !t.NilSafe {
+			if o.Mark == t.Sub[0] {
+				sb.WriteByte(MarkByte)
+			}
 			sb.WriteString(".")
+			mark()
 			sb.WriteString(t.Op)
 			return
 		}
@@ -833,6 +853,7 @@ func prc(sb *strings.Builder, t *Term, o PrintOpts, c pctx) {
 		} else {
 			sb.WriteString(".")
 		}
+		mark()
 		sb.WriteString(t.Op)
 	case KMethod:
 		prc(sb, t.Sub[0], o, post)
@@ -841,6 +862,7 @@ func prc(sb *strings.Builder, t *Term, o PrintOpts, c pctx) {
 		} else {
 			sb.WriteString(".")
 		}
+		mark()
 		sb.WriteString(t.Op)
 		sb.WriteByte('(')
 		for i, a := range t.Sub[1:] {
@@ -852,11 +874,13 @@ func prc(sb *strings.Builder, t *Term, o PrintOpts, c pctx) {
 		sb.WriteByte(')')
 	case KIndex:
 		prc(sb, t.Sub[0], o, post)
+		mark()
 		sb.WriteByte('[')
 		prc(sb, t.Sub[1], o, inner)
 		sb.WriteByte(']')
 	case KSlice:
 		prc(sb, t.Sub[0], o, post)
+		mark()
 		sb.WriteByte('[')
 		if t.Sub[1] != nil {
 			// "a ? b : c" before ':' would confuse the slice colon
